@@ -148,8 +148,11 @@ impl DeriveShape for ModuleDef {
         if let Some(ref constraint_expr) = self.out_constraint {
             let constraint_shape = constraint_expr.derive_shape(symbol_table);
             let narrowed = ret.narrow(&constraint_shape, symbol_table);
-            if let Shape::TypeErr(_, _) = &narrowed {
-                return narrowed;
+            if let Shape::TypeErr(at, msg) = narrowed {
+                return Shape::TypeErr(
+                    mismatch_pos(&constraint_shape, at, constraint_expr.pos()),
+                    msg,
+                );
             }
             ret = Box::new(narrowed);
         }
